@@ -135,13 +135,18 @@ theorem ack_of_nxt (una nxt : Seq) (h1 : 0 < (nxt - una).toNat) (h2 : (nxt - una
     | true =>
       exfalso
       unfold modLeq at h
-      rw [modLt_iff] at h
-      have e : una + 1 - nxt = 1 - (nxt - una) := by bv_omega
-      rw [e] at h
-      generalize nxt - una = d at h1 h2 h
-      have h1' : (1 : BitVec 32).toNat = 1 := rfl
-      simp only [BitVec.toNat_sub, h1'] at h
-      omega
+      rw [Bool.or_eq_true, beq_iff_eq, modLt_iff] at h
+      rcases h with h | h
+      · subst h
+        have e : nxt - nxt = 0 := by bv_omega
+        rw [e] at h1
+        exact absurd h1 (by decide)
+      · have e : una - nxt = 0 - (nxt - una) := by bv_omega
+        rw [e] at h
+        generalize nxt - una = d at h1 h2 h
+        have h0' : (0 : BitVec 32).toNat = 0 := rfl
+        simp only [BitVec.toNat_sub, h0'] at h
+        omega
   · unfold modBounded
     rw [cyc_iff]
     simp only [Cmp.offset]
